@@ -76,18 +76,24 @@ def check(run, prog, tier):
             run.ob("U2", f"{qs.qual}:new-collector-keyed-and-bound-to-remote", ok, loc(qs),
                    f"new collector {show(n.result)[:30]}({', '.join(show(a)[:40] for a in n.args)}, {dict(n.kwargs)}) filed under {show(files[0].target[2]) if files else '?'}; "
                    "expected (SEND_COLLECTION_TIMEOUT, sd.send_sd, remote=remote) filed under remote")
-            oka = len(appends) == 1 and appends[0].recv == n.result and appends[0].args == (ent,) and n.seq < appends[0].seq
-            run.ob("U1", f"{qs.qual}:append-to-the-new-collector", oka, loc(qs), "the entry is appended once, to the collector just created")
+            oka = all(a.recv == n.result and n.seq < a.seq for a in appends)
+            run.ob("U1", f"{qs.qual}:append-targets-open-collector[new]", oka, loc(qs), "appends go to the collector just created (which is open)")
+            okb = len(appends) == 1 and appends[0].args == (ent,)
+            run.ob("U1", f"{qs.qual}:entry-queued-exactly-once[new]", okb, loc(qs),
+                   f"the entry is appended {len(appends)}x" + ("" if okb else " - an entry handed to queue_send must be queued exactly once (not dropped, not duplicated)"))
             # a new one is made only when there was none or the old one is done
             why = [(c, v) for c, v, _, _ in p.conds if contains(c, lambda s: s[0] == "attr" and s[2] == "done") or contains(c, lambda s: s == const(None))]
             run.ob("U1", f"{qs.qual}:new-only-if-none-or-done", bool(why), loc(qs), "a new collector replaces only a missing or finished one")
         else:
             kinds.add("reuse")
             got = [e for e in p.events if e.kind == "call" and e.attrname == "get" and e.recv == ("attr", me, "send_queues") and e.args[:1] == (rem,)]
-            okr = len(appends) == 1 and got and appends[0].recv == got[0].result and appends[0].args == (ent,)
+            okr = bool(got) and all(a.recv == got[0].result for a in appends)
             tested = any(contains(c, lambda s: s == ("attr", got[0].result, "done")) for c, v, _, _ in p.conds) if got else False
-            run.ob("U1", f"{qs.qual}:reuse-only-after-not-done-test", bool(okr and tested), loc(qs),
+            run.ob("U1", f"{qs.qual}:append-targets-open-collector[reuse]", bool(okr and (tested or not appends)), loc(qs),
                    "an existing collector for this remote is reused only after it was tested 'not done' in the same step")
+            okb = len(appends) == 1 and appends[0].args == (ent,)
+            run.ob("U1", f"{qs.qual}:entry-queued-exactly-once[reuse]", okb, loc(qs),
+                   f"the entry is appended {len(appends)}x" + ("" if okb else " - an entry handed to queue_send must be queued exactly once (not dropped, not duplicated)"))
     run.ob("U1", f"{qs.qual}:cases", kinds == {"bypass", "new", "reuse"}, loc(qs), f"cases: {sorted(kinds)}")
 
     # ---- collector internals
